@@ -2,6 +2,10 @@ package main
 
 import (
 	"fmt"
+	"os"
+	"go/token"
+	"go/printer"
+	"bytes"
 	"go/ast"
 	"go/parser"
 	"go/types"
@@ -28,7 +32,24 @@ type FuncResult struct {
 	Covers   []*Cover
 }
 
+var ghostProg *Program
+
 func ghostType(name string) types.Type {
+	if i := strings.LastIndex(name, "."); i > 0 && ghostProg != nil {
+		ptr := strings.HasPrefix(name, "*")
+		pkgName, tn := strings.TrimPrefix(name[:i], "*"), name[i+1:]
+		for _, pk := range ghostProg.allPkgs {
+			if pk.Name() == pkgName || pk.Path() == pkgName {
+				if o, ok := pk.Scope().Lookup(tn).(*types.TypeName); ok {
+					if ptr {
+						return types.NewPointer(o.Type())
+					}
+					return o.Type()
+				}
+			}
+		}
+		return nil
+	}
 	switch name {
 	case "bv16":
 		return types.Typ[types.Uint16]
@@ -37,13 +58,14 @@ func ghostType(name string) types.Type {
 	case "str":
 		return types.Typ[types.String]
 	case "bytes":
-		return types.NewSlice(types.Typ[types.Uint8])
+		return bytesType
 	}
 	return specType(name)
 }
 
 // verifyFunction generates all obligations of one function under its contract.
 func verifyFunction(prog *Program, fn *ssa.Function, ctr *Contract, opts VerifyOpts) *FuncResult {
+	ghostProg = prog
 	x := NewExec(prog)
 	x.topFn = fn
 	x.topCtr = ctr
@@ -88,6 +110,13 @@ func verifyFunction(prog *Program, fn *ssa.Function, ctr *Contract, opts VerifyO
 		fr.params["self"] = fr.vals[fn.Params[0]]
 	}
 	fr.entry = st.clone()
+	// implicit preconditions (checked at every in-repo call site of a contracted
+	// function, see applyContract): non-nil receiver, request, writer, context
+	for i, p := range fn.Params {
+		for _, g := range x.implicitRequires(st, fn.Signature, i, len(fn.Params), fr.vals[p]) {
+			x.smt.Assert(g)
+		}
+	}
 	if ctr != nil {
 		for _, c := range ctr.Clauses {
 			if c.Kind == "requires" && !c.Spawn {
@@ -141,11 +170,20 @@ func (x *Exec) checkEnsures(fr *Frame, st *State, rs []Val, ret *ssa.Return) {
 		if c.Kind != "ensures" || c.Spawn {
 			continue
 		}
-		g := x.evalSpecBool(fr, st, fr.entry, c.Expr, env)
 		lbl := c.Label
 		if lbl == "" {
 			lbl = fmt.Sprintf("%d", clauseOrdinal(ctr, c))
 		}
+		if os.Getenv("GOCV_SPLIT") != "" {
+			// diagnosis: one obligation per top-level conjunct of the (consequent of the) clause
+			for i, part := range splitConjuncts(c.Expr) {
+				g := x.evalSpecBool(fr, st, fr.entry, part, env)
+				name := x.siteName(fmt.Sprintf("%s/ensures.%s.part%d[%s]", x.prog.relName(fr.fn), lbl, i, part.Text))
+				x.oblige(st, "ensures", name, c.Tags, ret.Pos(), g)
+			}
+			continue
+		}
+		g := x.evalSpecBool(fr, st, fr.entry, c.Expr, env)
 		name := x.siteName(fmt.Sprintf("%s/ensures.%s", x.prog.relName(fr.fn), lbl))
 		o := x.oblige(st, "ensures", name, c.Tags, ret.Pos(), g)
 		if o != nil {
@@ -156,40 +194,103 @@ func (x *Exec) checkEnsures(fr *Frame, st *State, rs []Val, ret *ssa.Return) {
 	x.checkFrame(fr, st, ret)
 }
 
-// checkFrame: every heap region written by the function (at references that
-// existed at entry) must be named in an assigns clause.
+// checkFrame: every heap cell that existed at entry and is changed by the
+// function must be named in an assigns clause. Targets are resolved to
+// (region, object) pairs in the entry state, so the obligation is per object:
+// forall r allocated at entry, r not an assigned object ==> region[r] unchanged.
 func (x *Exec) checkFrame(fr *Frame, st *State, ret *ssa.Return) {
 	ctr := fr.ctr
 	hasFrame := false
 	for _, c := range ctr.Clauses {
-		if c.Kind == "assigns" || c.Kind == "ensures" {
+		if c.Kind == "assigns" || c.Kind == "ensures" || c.Kind == "ghostset" {
 			hasFrame = true
 		}
 	}
 	if !hasFrame {
 		return
 	}
-	regs, ghosts, all := x.assignsRegions(ctr, false, fr.fn.Signature)
-	if all {
-		return
+	type allowed struct {
+		prefix string
+		base   string // "" = whole region
+		index  string
+	}
+	var allow []allowed
+	ghosts := map[string]bool{}
+	var tags []string
+	var pkg *types.Package
+	if fr.fn.Pkg != nil {
+		pkg = fr.fn.Pkg.Pkg
+	} else if fr.fn.Parent() != nil && fr.fn.Parent().Pkg != nil {
+		pkg = fr.fn.Parent().Pkg.Pkg
 	}
 	for _, c := range ctr.Clauses {
-		if c.Kind == "ghostset" && !c.Spawn {
+		if c.Spawn {
+			continue
+		}
+		if c.Kind == "ghostset" {
 			if i := strings.Index(c.Targets[0], "("); i > 0 {
 				if gm := x.prog.contracts.GhostMaps[strings.TrimSpace(c.Targets[0][:i])]; gm != nil {
 					reg, _, _ := ghostMapRegion(gm)
-					regs[reg] = true
+					allow = append(allow, allowed{prefix: reg})
 				}
 			} else {
 				ghosts[strings.TrimPrefix(c.Targets[0], "#")] = true
 			}
+			continue
+		}
+		if c.Kind != "assigns" {
+			continue
+		}
+		tags = append(tags, c.Tags...)
+		for _, tgt := range c.Targets {
+			tgt = strings.TrimSpace(tgt)
+			switch {
+			case tgt == "*":
+				return
+			case strings.HasPrefix(tgt, "#"):
+				ghosts[tgt[1:]] = true
+			case strings.HasPrefix(tgt, "region(") && strings.HasSuffix(tgt, ")"):
+				allow = append(allow, allowed{prefix: tgt[7 : len(tgt)-1]})
+			case strings.HasPrefix(tgt, "pointees("):
+				return
+			default:
+				inner, contents := tgt, false
+				if strings.HasPrefix(tgt, "contents(") && strings.HasSuffix(tgt, ")") {
+					inner, contents = tgt[9:len(tgt)-1], true
+				}
+				e, err := parser.ParseExpr(ghostRe.ReplaceAllString(inner, "ghost__$1"))
+				if err != nil {
+					x.unsupported("assigns target %q: %v", tgt, err)
+					return
+				}
+				sc := &specCtx{x: x, pkg: pkg, env: fr.params, st: fr.entry, old: fr.entry}
+				if contents {
+					v := sc.expr(e, nil)
+					if isInterface(v.T) && v.Dyn != nil {
+						v = *v.Dyn
+					}
+					switch u := v.T.Underlying().(type) {
+					case *types.Slice:
+						allow = append(allow, allowed{prefix: "arr." + elemPrefix(u.Elem()), base: v.sRef()})
+					case *types.Pointer:
+						allow = append(allow, allowed{prefix: v.ptrPrefixOr(), base: v.L[0]})
+					default:
+						x.unsupported("assigns contents(%s): not a slice or pointer", inner)
+						return
+					}
+					continue
+				}
+				p := sc.addr(e, nil)
+				if _, ok := p.T.Underlying().(*types.Pointer); !ok {
+					x.unsupported("assigns target %q cannot be resolved", tgt)
+					return
+				}
+				allow = append(allow, allowed{prefix: p.ptrPrefixOr(), base: p.L[0], index: p.PtrIndex})
+			}
 		}
 	}
-	var tags []string
-	for _, c := range ctr.Clauses {
-		if c.Kind == "assigns" {
-			tags = append(tags, c.Tags...)
-		}
+	covers := func(k, p string) bool {
+		return k == p || strings.HasPrefix(k, p+".") || strings.HasPrefix(k, p+"#") || strings.HasPrefix(k, p+":")
 	}
 	for _, k := range sortedKeys(st.heap) {
 		cur := st.heap[k]
@@ -199,24 +300,37 @@ func (x *Exec) checkFrame(fr *Frame, st *State, ret *ssa.Return) {
 		if _, known := x.heapSort[k]; !known {
 			continue
 		}
+		if strings.HasPrefix(k, "cell.") {
+			continue // local variables
+		}
 		init := "H0." + sanitize(k)
-		if cur == init || !x.smt.declared[init] && cur == init {
+		if cur == init {
 			continue
 		}
-		covered := false
-		for r := range regs {
-			if k == r || strings.HasPrefix(k, r+".") || strings.HasPrefix(k, r+"#") || strings.HasPrefix(k, r+":") {
-				covered = true
+		whole := false
+		var bases []string
+		for _, a := range allow {
+			if !covers(k, a.prefix) {
+				continue
+			}
+			if a.base == "" {
+				whole = true
+			} else {
+				bases = append(bases, a.base)
 			}
 		}
-		// writes to locals / fresh objects are invisible: compare only refs allocated before entry
-		if covered || strings.HasPrefix(k, "cell.") {
+		if whole {
 			continue
 		}
 		x.smt.Declare(init, x.arraySort(k))
 		x.smt.fresh++
 		q := fmt.Sprintf("q!r!%d", x.smt.fresh)
-		goal := fmt.Sprintf("(forall ((%s %s)) (=> (bvult %s %s) (= (select %s %s) (select %s %s))))", q, SRef, q, fr.entry.alloc, cur, q, init, q)
+		var conds []string
+		conds = append(conds, app("bvult", q, fr.entry.alloc))
+		for _, b := range bases {
+			conds = append(conds, not(eq(q, b)))
+		}
+		goal := fmt.Sprintf("(forall ((%s %s)) (=> %s (= (select %s %s) (select %s %s))))", q, SRef, and(conds...), cur, q, init, q)
 		name := x.siteName(fmt.Sprintf("%s/frame.%s", x.prog.relName(fr.fn), k))
 		x.oblige(st, "frame", name, tags, ret.Pos(), goal)
 	}
@@ -491,6 +605,8 @@ func (c *scanCtx) contractEffects(ctr *Contract, sig *types.Signature, isGo bool
 				c.out.ghosts[tgt[1:]] = true
 			case strings.HasPrefix(tgt, "region("):
 				c.out.whole[tgt[7:len(tgt)-1]] = true
+			case strings.HasPrefix(tgt, "pointees("):
+				c.out.all = true
 			default:
 				inner := tgt
 				contents := false
@@ -704,4 +820,65 @@ func (c *scanCtx) static(f *ssa.Function, args []ssa.Value, isGo bool) {
 	for _, a := range args {
 		c.argEffects(a)
 	}
+}
+
+// implicitRequires lists the facts assumed about argument i of a function:
+// pointer receivers, *http.Request, http.ResponseWriter and context.Context
+// values are non-nil; a request has a URL.
+func (x *Exec) implicitRequires(st *State, sig *types.Signature, i, nargs int, v Val) []string {
+	var gs []string
+	isRecv := sig.Recv() != nil && nargs == sig.Params().Len()+1 && i == 0
+	if isRecv {
+		if _, ok := v.T.Underlying().(*types.Pointer); ok {
+			gs = append(gs, nonNilTerm(v))
+		}
+		return gs
+	}
+	switch qualifiedTypeName(v.T) {
+	case "net/http.ResponseWriter", "context.Context":
+		gs = append(gs, nonNilTerm(v))
+	}
+	if p, ok := v.T.(*types.Pointer); ok && qualifiedTypeName(p.Elem()) == "net/http.Request" {
+		gs = append(gs, nonNilTerm(v))
+		gs = append(gs, not(eq(x.heapRead(st, "http.Request.URL", SRef, v.L[0], ""), "#x00000000")))
+	}
+	return gs
+}
+
+// splitConjuncts splits A ==> (B && C) into A ==> B, A ==> C (diagnostics only).
+func splitConjuncts(n *SpecNode) []*SpecNode {
+	if n.Op == "impl" {
+		var out []*SpecNode
+		for _, p := range splitConjuncts(n.B) {
+			out = append(out, &SpecNode{Op: "impl", A: n.A, B: p, Text: p.Text})
+		}
+		return out
+	}
+	if n.Op != "go" {
+		return []*SpecNode{n}
+	}
+	var parts []ast.Expr
+	var walk func(e ast.Expr)
+	walk = func(e ast.Expr) {
+		if b, ok := e.(*ast.BinaryExpr); ok && b.Op == token.LAND {
+			walk(b.X)
+			walk(b.Y)
+			return
+		}
+		if p, ok := e.(*ast.ParenExpr); ok {
+			if b, ok := p.X.(*ast.BinaryExpr); ok && b.Op == token.LAND {
+				walk(b)
+				return
+			}
+		}
+		parts = append(parts, e)
+	}
+	walk(n.Go)
+	var out []*SpecNode
+	for _, p := range parts {
+		var buf bytes.Buffer
+		printer.Fprint(&buf, token.NewFileSet(), p)
+		out = append(out, &SpecNode{Op: "go", Go: p, Subs: n.Subs, Text: buf.String()})
+	}
+	return out
 }
